@@ -728,13 +728,16 @@ class StoryInsert(MosFile):
                 f"{self.__class__.__name__} error in {self.message_id} - target story not found"
             )
         ro_story_ids = {story.id for story in ro.stories}
-        for i, new_story in enumerate(self.source_stories, start=story_index):
+        i = story_index
+        for new_story in self.source_stories:
             if new_story.id in ro_story_ids:
                 msg = f"{self.__class__.__name__} error in {self.message_id} - story already found in running order"
                 logger.warning(msg)
                 warnings.warn(msg, DuplicateStoryWarning)
                 continue
             insert_node(parent=ro.base_tag, node=new_story.xml, index=i)
+            ro_story_ids.add(new_story.id)
+            i += 1
         return ro
 
     def inspect(self):
@@ -1649,13 +1652,16 @@ class EAStoryInsert(ElementAction):
                     f"{self.__class__.__name__} error in {self.message_id} - target story not found"
                 )
         ro_story_ids = {story.id for story in ro.stories}
-        for i, new_story in enumerate(self.stories, start=story_index):
+        i = story_index
+        for new_story in self.stories:
             if new_story.id in ro_story_ids:
                 msg = f"{self.__class__.__name__} error in {self.message_id} - story already found in running order"
                 logger.warning(msg)
                 warnings.warn(msg, DuplicateStoryWarning)
             else:
                 insert_node(parent=ro.base_tag, node=new_story.xml, index=i)
+                ro_story_ids.add(new_story.id)
+                i += 1
         return ro
 
     def inspect(self):
